@@ -13,6 +13,10 @@
       6 LOWER, 7 TRIM/LTRIM/RTRIM, 8 JSON stringify/parse (no model: always
       expected to hold), 9 DATE_ADD/DATE_SUBTRACT, 10 DATE_DIFF, 11 RFC 3339;
       99 malformed case data.
+   DATE_DIFF: a predicted failure (110: the code returns the absolute value, so
+   a negative amount does not come back) is granted only when the
+   implementation returned exactly that absolute value; any other result is
+   listed as (10, i, 1) - neither the amount nor the recorded behaviour.
    A case on which the implementation's predicate holds is never listed,
    whatever the model predicts (a repaired defect is not an alarm).
 
@@ -105,7 +109,8 @@ Fixpoint jsons (O : list N) (i : N) : list triple :=
   end.
 
 (* ---- dates.  A case: (sec, nsec, amount, unit code 0..5); observation
-   48 + bits (bit 0 add/subtract returned the instant, bit 1 DATE_DIFF = amount) *)
+   48 + bits (bit 0 add/subtract returned the instant, bit 1 DATE_DIFF = amount,
+   bit 2 DATE_DIFF = amount or - amount) *)
 Definition unit_of (c : N) : dunit :=
   match c with 0 => UMs | 1 => USec | 2 => UMin | 3 => UHour | 4 => UDay | _ => UWeek end.
 
@@ -113,13 +118,18 @@ Definition m_addsub (t : instant) (n : Z) (u : dunit) : bool :=
   inst_eqb (date_sub (date_add t n u) n u) t.
 Definition m_diff (t : instant) (n : Z) (u : dunit) : bool :=
   (date_diff t (date_add t n u) u =? n)%Z.
+Definition m_diff_abs (t : instant) (n : Z) (u : dunit) : bool :=
+  (date_diff t (date_add t n u) u =? Z.abs n)%Z.
 
 Fixpoint dates (D : list (Z * Z * Z * N)) (O : list N) (i : N) : list triple :=
   match D, O with
   | (sec, nsec, n, uc) :: D', o :: O' =>
       let t := (sec, nsec) in let u := unit_of uc in
       (if bit o 0 then [] else [((if m_addsub t n u then 9 else 109), i, 0)]) ++
-      (if bit o 1 then [] else [((if m_diff t n u then 10 else 110), i, 0)]) ++
+      (if bit o 1 then []
+       else if m_diff t n u then [(10, i, 0)]
+       else if bit o 2 && m_diff_abs t n u then [(110, i, 0)]
+       else [(10, i, 1)]) ++
       dates D' O' (i + 1)
   | [], [] => []
   | _, _ => [(99, i, 3)]
